@@ -33,12 +33,34 @@ MANIFEST = dict(
          "into a directory holding an older shorter / longer / empty / identical / unrelated version of the file versus the "
          "model. An implementation-only oracle byte-compares whole output directories across hash seeds, working "
          "directories, environments, pre-populated output directories (another library's output; related versions of the "
-         "same files) and in-process sequences incl. libraries with caller-owned results of predefined types.",
+         "same files) and in-process sequences incl. libraries with caller-owned results of predefined types. "
+         "Round 6: the process-wide state is modelled as insertion-ordered containers (dput/dget) and a run as a program of "
+         "stages (reset / put / put-if-absent / emit / emit-key / raise); next_run_independent_of_history and full_run_pure "
+         "prove, by induction over ANY list of earlier runs each complete or cut by an error after any number of stages, "
+         "that a run keeping the read-after-reset discipline emits the same pieces, raises or not the same way, reports the "
+         "same file list and leaves the same bytes in every reported file as a run in a fresh process into any other "
+         "directory, under the always-write policy of write_output_file and under write-only-if-changed "
+         "(directory_independent_of_prior, writeAll_policy_irrelevant); undisciplined_run_leaks shows the discipline is "
+         "needed; emitted_order_is_insertion_order / dget_insertAll: iteration order of a filled container is first-insertion "
+         "order of the input and the value the last assigned, for every insertion sequence. The hypotheses are discharged on "
+         "regenerated data: real_runs_disciplined / real_runs_frame over the ordered first-event traces (reset, key write, "
+         "key read, whole read) of real runs - first in a process and after another library - recorded by tracing containers, "
+         "with reset stages where the code has one (global rebinding found by AST scan, dict.clear, update_for_language, "
+         "update_stmt_tree, set_library's prune to the import-time helpers when their values are unchanged); "
+         "mutable_registries_keep_order: no registry that changes at run time is a set. The enumeration now covers every "
+         "module/class attribute that is not deeply immutable (instances, tuples holding mutables, names rebound through "
+         "`global`) and raises on a value it cannot classify; objects bound by an earlier run are replaced by a proxy that "
+         "raises on use. The oracle also runs histories containing runs that end in an error (AST stage, post-generate stage).",
     design="3 C07, 9.4, 9.9",
     note="Trusted: Lean kernel; the translator (introspective registry enumeration, probe classification on a fixed set of "
          "library pairs, AST scan); that the registry abstraction (RunSpec) fits the emitters' use of each registry - this is "
          "validated by the byte-comparison oracle, not proved. The file system is modelled as a map from names to "
-         "contents (open-for-write replaces the contents); PyYAML is not modelled.",
+         "contents (open-for-write replaces the contents); PyYAML is not modelled. Not modelled: the values stored in the "
+         "registries (the stage model abstracts them; the discipline is about which stage reads what), mutation of objects "
+         "nested inside a registry entry (seen only through the digests of the probe, not as trace events), the `render` step "
+         "from emitted pieces to file text (an arbitrary function in full_run_pure; its line-level part is C13's model), reads "
+         "of stale rebound objects are detected dynamically on the probed pairs, not proved absent; the stage traces are "
+         "those of the probed libraries, not of every library; sorted(...) emission sites are covered by the AST scan only.",
     technique="Lean 4 proof (invariant over histories; decide +kernel over regenerated tables) + differential correspondence + byte-comparison oracle",
 )
 MODULES = ["ShroudVerif.Props.C07"]
@@ -54,6 +76,31 @@ THEOREMS = {
         "Shroud.Registry.registries_classified",
         "Shroud.Registry.no_ambient_state",
         "Shroud.Registry.written_file_independent_of_directory",
+        # round 6: process state as order-carrying containers, runs as programs of stages, the output directory
+        "Shroud.Registry.dget_dput",
+        "Shroud.Registry.keys_dput",
+        "Shroud.Registry.keys_insertAll",
+        "Shroud.Registry.emitted_order_is_insertion_order",
+        "Shroud.Registry.dget_insertAll",
+        "Shroud.Registry.execFrom_agree",
+        "Shroud.Registry.execFrom_frame",
+        "Shroud.Registry.noWrite_take",
+        "Shroud.Registry.afterHistory_frame",
+        "Shroud.Registry.next_run_independent_of_history",
+        "Shroud.Registry.disciplined_take",
+        "Shroud.Registry.truncated_run_independent_of_history",
+        "Shroud.Registry.undisciplined_run_leaks",
+        "Shroud.Registry.writeAll_always_eq",
+        "Shroud.Registry.writeP_ifChanged_eq",
+        "Shroud.Registry.writeAll_congr",
+        "Shroud.Registry.writeAll_policy_irrelevant",
+        "Shroud.Registry.planned_isSome_iff",
+        "Shroud.Registry.directory_independent_of_prior",
+        "Shroud.Registry.full_run_pure",
+        "Shroud.Registry.real_runs_disciplined",
+        "Shroud.Registry.real_runs_frame",
+        "Shroud.Registry.mutable_registries_keep_order",
+        "Shroud.Registry.traces_nonvacuous",
     ]
 }
 
@@ -143,6 +190,20 @@ def gen_items(r, scratchdir, n):
           "  - decl: class Edge\n    declarations:\n    - decl: Edge()\n    - decl: int index()\n")
     os.makedirs(os.path.join(scratchdir, "hollow"), exist_ok=True)
     items.append({"yaml": shroudrun.write_yaml(os.path.join(scratchdir, "hollow"), "geom.yaml", ho), "label": "gen:hollow", "text": ho})
+    # runs that END IN AN ERROR part-way, at two stages of main_with_args: while building the AST (after typemap.initialize
+    # and after an earlier class was registered; in C++ and in C mode), and after generate_functions (a YAML splicer file
+    # that does not exist: types registered, statement tables updated for the language, helpers filled)
+    e1 = ("library: errdecl\ncxx_header: errdecl.hpp\ndeclarations:\n- decl: class Early\n  declarations:\n  - decl: Early()\n"
+          "- decl: void broken(int (\n")
+    e2 = ("library: errsplice\ncxx_header: errsplice.hpp\nsplicer:\n  c: [no_such_splicer_file.c]\ndeclarations:\n"
+          "- decl: class Mid\n  declarations:\n  - decl: Mid()\n  - decl: std::vector<int> values()\n"
+          "- decl: std::string midName()\n- decl: int *midInts(int n) +owner(caller)+dimension(n)\n")
+    e3 = ("library: errlang\nlanguage: c\ncxx_header: errlang.h\ndeclarations:\n- decl: struct Pt\n  declarations:\n"
+          "  - decl: int x\n- decl: void usept(Pt *p)\n- decl: void late(std::string & s)\n")
+    for nm, t in (("errDecl", e1), ("errSplice", e2), ("errLang", e3)):
+        os.makedirs(os.path.join(scratchdir, nm), exist_ok=True)
+        y = shroudrun.write_yaml(os.path.join(scratchdir, nm), nm.lower() + ".yaml", t)
+        items.append({"yaml": y, "label": "gen:" + nm, "text": t, "expect_error": True})
     for nm, t in (("ownA", oa), ("ownB", ob)):
         os.makedirs(os.path.join(scratchdir, nm), exist_ok=True)
         y = shroudrun.write_yaml(os.path.join(scratchdir, nm), nm.lower() + ".yaml", t)
@@ -170,6 +231,7 @@ def run(ctx):
         gen = gen_items(r, work, 10 if thorough else 4)
         shadow = [g for g in gen if "shadow" in g["label"]]
         own = [g for g in gen if "gen:own" in g["label"]]
+        errs = [g for g in gen if g.get("expect_error")]
         # ---------------- (T) regenerate tables, then prove
         info = extract_registry.regenerate(extra_pairs=[(strip(shadow[0]), strip(shadow[1]))])
         ctx.note("translator", {k: v for k, v in info.items() if k != "ambient"})
@@ -262,6 +324,8 @@ def run(ctx):
             if len(trees[0]) >= 3:
                 ctx.nontrivial(("alone", label(it)))
         ctx.sample({"alone": label(items[0]), "files": sorted(alone[label(items[0])][1])[:6]})
+        ctx.note("error_runs", {label(e): (alone[label(e)][0] or "NO ERROR (scenario lost its teeth)")[:120] + " / files written before: %d" % len(alone[label(e)][1])
+                                for e in errs})
 
         def check_seq(seq, env=None, cwd=None, kind="seq"):
             excs, trees = run_seq([strip(i) for i in seq], env=env, cwd=cwd)
@@ -287,6 +351,13 @@ def run(ctx):
         else:
             r.shuffle(pairs)
             pairs = pairs[:1500] + [(shadow[0], shadow[1]), (shadow[1], shadow[0]), (own[0], own[1]), (own[1], own[0])]
+        # histories containing runs that ended in an error: [failing run, library] and [library, failing run, library]
+        okitems = [i for i in items if not i.get("expect_error")]
+        for e in errs:
+            for b in r.sample(okitems, 3) + own[:1] + shadow[1:]:
+                pairs.append((e, b))
+            jobs.append(([r.choice(okitems), e, r.choice(okitems)], None, None, "seq"))
+        jobs.append((errs + [r.choice(okitems)], None, None, "seq"))
         for p in pairs:
             jobs.append((list(p), None, None, "seq"))
         for _ in range(40 if thorough else 3):
